@@ -301,3 +301,27 @@ def var_vs_const(test):
     if const_value(l) is not None and const_value(r) is None:
         return norm(r), _MIRROR[op], const_value(l)
     return None
+
+
+def with_vars(func, opener_attr='write_batch'):
+    """Names bound by `with <x>.<opener_attr>() as NAME` in the function."""
+    out = set()
+    for n in func.own_nodes():
+        if isinstance(n, (ast.With, ast.AsyncWith)):
+            for i in n.items:
+                if isinstance(i.optional_vars, ast.Name) and isinstance(i.context_expr, ast.Call) and \
+                        isinstance(i.context_expr.func, ast.Attribute) and i.context_expr.func.attr == opener_attr:
+                    out.add(i.optional_vars.id)
+    return out
+
+
+def batch_calls(ctx, func, method):
+    """Calls of <batch>.<method>(...) on a write batch opened in this function (also through a local alias)."""
+    wv = with_vars(func)
+    out = []
+    for c in own_calls(func):
+        nm = callee_name(ctx, func, c)
+        base, _, m = nm.rpartition('.')
+        if m == method and base in wv:
+            out.append(c)
+    return out
